@@ -489,7 +489,11 @@ func solveReport(rep *FnReport, opts solveOpts) {
 			defer wg.Done()
 			sem <- struct{}{}
 			defer func() { <-sem }()
-			r := Solve(q, opts.timeout, false)
+			to := opts.timeout
+			if o.Invert {
+				to = 1500 * time.Millisecond
+			}
+			r := Solve(q, to, false)
 			if o.Invert {
 				// satisfiable or unknown: fine; unsat: the assumptions are contradictory
 				if r.Status == "unsat" {
